@@ -23,8 +23,25 @@ type callTuple struct {
 	errk string
 }
 
+// SetStackClock, when the binary is built with the clock overlay over package
+// stack (stages/C09.sh; the same rewrite as C06's build), selects the clock the
+// code under test reads: mode "reverse" jumps one second per reading, ""
+// is the real clock. nil in builds without the overlay.
+var SetStackClock func(mode string, seed uint64)
+
 func loopUnder(b []byte, sched iosim.Schedule, nameArgs bool, cov *Cov, keep bool, bufio ...int) (*LoopRes, []callTuple, *iosim.SimReader) {
 	clk := &core.Clock{}
+	// Half of the scheduled (not one-shot) executions run with a clock that
+	// jumps a second whenever the code under test looks at it: an outcome
+	// that depends on how long the reader took (a time budget for empty
+	// reads, a deadline) then differs from one-shot delivery.
+	if SetStackClock != nil && len(sched.Steps) > 2 && (len(b)+len(sched.Steps))%2 == 0 {
+		SetStackClock("reverse", 0)
+		defer SetStackClock("", 0)
+		if cov != nil {
+			cov.Probe("jumping-clock")
+		}
+	}
 	sr := iosim.NewSimReader(b, sched, clk)
 	sr.KeepRecs = keep
 	if len(bufio) > 0 && bufio[0] > 0 {
@@ -302,7 +319,7 @@ func init() {
 		ID: "C09", Level: "exploration",
 		Run:       RunC09,
 		Check:     CheckC09,
-		MustReach: []string{"literal-corpus", "malformed-dump", "bom-prefixed-stream"},
+		MustReach: []string{"literal-corpus", "malformed-dump", "bom-prefixed-stream", "jumping-clock"},
 		Quick:     600, Thorough: 40000,
 		Rule: "one evaluation = the resume loop over one generated stream under one delivery schedule, compared with one-shot delivery of the same bytes; schedules per stream: every single split point (streams <= 6 KiB; sampled around line ends and 16 KiB multiples for longer ones) with both EOF kinds, byte-wise and fixed chunk sizes around 4096/16384, and seeded random schedules with zero-length reads (<= 99 in a row), short reads and boundaries attracted to line ends; distinct_nontrivial = distinct (stream hash, schedule) pairs whose stream contains at least one dump and whose schedule has >= 2 producer steps or a fault",
 		Assumptions: []string{
